@@ -2230,10 +2230,44 @@ class DecodedStr:
     def __pyvc_attr__(self, eng, name):
         if name == 'encode':
             return _Const(self.b)
+        if name in ('endswith', 'startswith', 'removesuffix', 'removeprefix'):
+            return _StrAffix(self, name)
         raise Unsupported(f'str.{name} on decoded symbolic bytes')
 
     def __pyvc_isinstance__(self, cs):
         return str in cs
+
+
+class _StrAffix:
+    """endswith / startswith / removesuffix / removeprefix of decoded symbolic bytes against a concrete ASCII affix (concrete length only)"""
+    __pyvc_symbolic__ = True
+
+    def __init__(self, s, name):
+        self.s, self.name = s, name
+
+    def __pyvc_call__(self, eng, args, kwargs):
+        (q,) = args
+        if not isinstance(q, str) or not q.isascii():
+            raise Unsupported(f'str.{self.name} with a non-literal affix')
+        b = eng.as_sbytes(self.s.b)
+        if not b.concrete_len():
+            raise Unsupported(f'str.{self.name} on a string of symbolic length')
+        k, n = len(q), b.n
+        suffix = self.name in ('endswith', 'removesuffix')
+        if k > n:
+            hit = False
+        elif k == 0:
+            hit = True
+        else:
+            part = eng.bytes_slice(b, slice(n - k, n) if suffix else slice(0, k))
+            r = eng.bytes_eq(part, q.encode())
+            hit = eng.fork(ZB(r)) if isinstance(r, Sym) else bool(r)
+        if self.name in ('endswith', 'startswith'):
+            return hit
+        if not hit or k == 0:
+            return self.s
+        rest = eng.bytes_slice(b, slice(0, n - k) if suffix else slice(k, n))
+        return DecodedStr(rest)
 
 
 class _Const:
